@@ -300,7 +300,7 @@ void in_run(Rng& rng)
 
 } // namespace
 
-std::uint64_t vfh_num_cases(bool thorough) { return thorough ? 600000 : 12000; }
+std::uint64_t vfh_num_cases(bool thorough) { return thorough ? 300000 : 12000; }
 
 void vfh_run_case(std::uint64_t idx, Rng& rng)
 {
